@@ -127,8 +127,11 @@ func (check) Enumerate(tier string, seed int64, group int, yield func(core.Case)
 			if n > 1 && s.Depth() == 0 {
 				continue
 			}
-			for _, drop := range []int{0, 1, 2} {
+			for _, drop := range []int{0, 1, 2, 3} {
 				if drop == 1 && (!hasStruct(s) || n != 2) {
+					continue
+				}
+				if drop == 3 && (!hasIntKeyMap(s) || n != 2) {
 					continue
 				}
 				if drop == 2 && n != 0 && n != 2 {
@@ -156,7 +159,45 @@ func (check) Enumerate(tier string, seed int64, group int, yield func(core.Case)
 	}
 }
 
-// variant 0: position-distinct values; 1: first field of every struct absent; 2: boundary scalars
+func hasIntKeyMap(s *tbin.Shape) bool {
+	if s.T == tbin.MAP && (s.Key.T == tbin.I16 || s.Key.T == tbin.I32 || s.Key.T == tbin.I64) {
+		return true
+	}
+	if s.Elem != nil && hasIntKeyMap(s.Elem) {
+		return true
+	}
+	if s.Key != nil && hasIntKeyMap(s.Key) {
+		return true
+	}
+	for _, f := range s.Fields {
+		if hasIntKeyMap(f.S) {
+			return true
+		}
+	}
+	return false
+}
+
+// negateKeys makes every i16 / i32 / i64 map key negative (k -> -k-1).
+func negateKeys(v *tbin.Val) {
+	if v.T == tbin.MAP && (v.KT == tbin.I16 || v.KT == tbin.I32 || v.KT == tbin.I64) {
+		for _, k := range v.K {
+			if k.I >= 0 {
+				k.I = -k.I - 1
+			}
+		}
+	}
+	for _, e := range v.L {
+		negateKeys(e)
+	}
+	for _, e := range v.K {
+		negateKeys(e)
+	}
+	for _, f := range v.Fs {
+		negateKeys(f.V)
+	}
+}
+
+// variant 0: position-distinct values; 1: first field of every struct absent; 2: boundary scalars; 3: negative integer map keys
 func build(s *tbin.Shape, n int, variant int) *tbin.Val {
 	g := &tbin.Gen{Boundary: variant == 2}
 	if isWide(s) && s.T != tbin.STRUCT && n > 0 {
@@ -165,6 +206,9 @@ func build(s *tbin.Shape, n int, variant int) *tbin.Val {
 	v := g.Build(s, n)
 	if variant == 1 {
 		dropFirst(v)
+	}
+	if variant == 3 {
+		negateKeys(v)
 	}
 	return v
 }
@@ -1068,6 +1112,56 @@ func (c *ctx) famForeach() {
 							c.viol("Value.Foreach", trigv, "wrong-count", "%d callbacks want %d", i, exp)
 						}
 					})
+				}
+				// a descriptor that lacks one of the fields on the wire (DisallowUnknow off): the unknown field is passed
+				// over, every other field is still visited, in wire order
+				if p.V.T == tbin.STRUCT && p.S != nil && len(p.S.Fields) >= 2 && stopAt == -1 {
+					for _, drop := range []int{0, len(p.S.Fields) / 2} {
+						dropID := p.S.Fields[drop].ID
+						minus := tbin.StructS()
+						for k, f := range p.S.Fields {
+							if k != drop {
+								minus.Fields = append(minus.Fields, f)
+							}
+						}
+						var wantM []tutil.Child
+						for _, w := range want {
+							if !(w.PE.K == 'f' && w.PE.ID == dropID) {
+								wantM = append(wantM, w)
+							}
+						}
+						if len(wantM) == len(want) {
+							continue // the dropped field is not on the wire
+						}
+						for _, byName := range []bool{false, true} {
+							byName := byName
+							trigu := fmt.Sprintf("%s,descriptor-lacks-%s-field,byname=%v", k, map[bool]string{true: "first", false: "middle"}[drop == 0], byName)
+							c.guard("Value.Foreach", trigu, func() {
+								pv2 := generic.NewValue(tutil.Desc(minus), pn.Raw())
+								i := 0
+								err := pv2.Foreach(func(path generic.Path, v generic.Value) bool {
+									if i < len(wantM) {
+										e := wantM[i].PE
+										if byName && e.K == 'f' {
+											e = tutil.PE{K: 'n', Name: e.Name}
+										}
+										if !samePath(path, e) {
+											c.viol("Value.Foreach", trigu, "wrong-path", "item %d path %v want %s", i, path, e)
+										}
+										c.checkNode("Value.Foreach", trigu, v.Node, wantM[i].V)
+									}
+									i++
+									return true
+								}, &generic.Options{UseNativeSkip: native, IterateStructByName: byName})
+								if err != nil {
+									c.viol("Value.Foreach", trigu, "error", "%v", err)
+								}
+								if i != len(wantM) {
+									c.viol("Value.Foreach", trigu, "wrong-count", "%d callbacks want %d (the descriptor lacks field %d, the value has it)", i, len(wantM), dropID)
+								}
+							})
+						}
+					}
 				}
 				if p.V.T == tbin.MAP {
 					c.guard("Node.ForeachKV", trig, func() {
